@@ -2,7 +2,7 @@
 # tools/tryseed.sh <patchdir> "<checks>"  : apply <patchdir>/patch.diff to the scratch worktree /tmp/wt0 (at /repo HEAD),
 # run the repository's tests, the demo with and without the change, and the given checks against the changed tree.
 D=$1; CHECKS=$2
-WT=/tmp/wt0
+WT=${WT:-/tmp/wt0}
 [ -d $WT ] || git -C /repo worktree add -q --detach $WT
 git -C $WT checkout -q -- . ; git -C $WT checkout -q --detach $(git -C /repo rev-parse HEAD)
 S=$(mktemp -d /tmp/seedrun.XXXX)
